@@ -2,6 +2,7 @@
 scripted randomness, and direct-call replay of TLC state-graph paths."""
 from __future__ import annotations
 
+from .c16_util import Hung, time_limit
 from happysimulator.components.datastore.eviction_policies import (
     ClockEviction, FIFOEviction, LFUEviction, LRUEviction, RandomEviction, SampledLRUEviction,
     SLRUEviction, TTLEviction, TwoQueueEviction,
@@ -170,7 +171,8 @@ def replay_path(name, path, nodes, root, strict=True):
                     p._rng.want = key_name(want)
                     if name == "SAMPLED":
                         p._rng.times = dict(p._access_times)
-                v = p.evict()
+                with time_limit(10):
+                    v = p.evict()
                 vn = 0 if v is None else key_num(v)
                 if not strict:
                     pass
@@ -181,6 +183,8 @@ def replay_path(name, path, nodes, root, strict=True):
                 held.discard(vn)
                 if vn != want and mismatch is None:
                     mismatch = (i, lab, f"victim {want}", f"victim {vn}")
+        except Hung as ex:
+            return i, (i, lab, "returns", f"did not return: {ex}"), None
         except Exception as ex:      # the model has no exceptions: report as drift, stop this path
             return i, (i, lab, "no exception", f"{type(ex).__name__}: {ex}"), None
         tk = tracked(name, p)
